@@ -19,9 +19,13 @@ PROVED = ['the log-linear interpolation behind every inserted node reproduces bo
           'get_dx rejects every fraction outside (0,1), returns the tabulated diameter at a tabulated fraction, and is the C18 lookup on (fraction, log10 d) in between',
           'reproduction by interpolation, one segment (C12_reproduction_between_nodes_partial, C12_start_node_on_line, C12_log10_pow10): log-linear interpolation between ANY two nodes the '
           'discretiser puts on a segment returns the value of the segment\'s own log-line at every fraction - in particular exactly the given lower point, which is not a node - and the '
-          'start node (X, limit) lies on that line']
+          'start node (X, limit) lies on that line',
+          'reproduction by interpolation through the lookup over the WHOLE output (C12_reproduces_lower_point): whenever the grading starts at the limit (X > 0) and the lower given '
+          'point of the first remaining segment lies above the limit, get_dx at its fraction returns exactly its diameter although it is not a node - every node up to the upper end of '
+          'that segment lies on the segment\'s log-line (invariant carried through start node, subdivision loop, segment loop, sorted() and the extrapolated top node: Lemmas/FracsLine), '
+          'and the lookup over a sorted table whose nodes up to a key lie on one line returns that line (Lemmas/FracsLookup)']
 HYPOTHESES = []
-MONITORED = ['the lift of the one-segment reproduction theorem to the lookup over the whole sorted output (that the two neighbouring nodes found by the lookup are nodes of that segment) and, as a cross-check of the proved ones on doubles, ordering / range / start node - decided by the oracle on the implementation for every generated grading; '
+MONITORED = ['reproduction of the lowest given point when the grading does NOT start at the limit (X <= 0: no start node is stored; with no interpolated node on the first segment the point is lost - the listed finding) and, as a cross-check of the proved ones on doubles, ordering / range / start node - decided by the oracle on the implementation for every generated grading; '
              'floating-point rounding of 10**log10']
 RULE = ('(Dp, fluid, rhos) in E x D15<D50<D85 with ratios in (1.02, 6] incl. the band D15 just above the limit and near-uniform gradings (ratios 1.02-1.05), '
         'D50 from just above the limit to 0.25 Dp, through Slurry and through raw create_fracs with 3- and 4-point inputs (extra point at 0 or 0.05, finer or coarser than the limit); '
@@ -251,6 +255,43 @@ def monitor(ctx, extended=False):
                         if bad:
                             ctx.violation('Slurry after regenerating the grading: ' + bad, inp2, key='gsd')
                         check_lookup(ctx, s, pts2, dl, inp2)
+                r_ = ctx.rng.random()
+                if r_ < 0.25:
+                    # a SECOND slurry object in the same process that differs from the first only in solids density (the limit, hence the start of the grading,
+                    # depends on it): its grading is its own
+                    p2 = dict(p)
+                    p2['rhos'] = ctx.rng.choice([x_ for x_ in (2.0, 2.65, 3.2, 4.0) if abs(x_ - p['rhos']) > 0.3])
+                    dl2 = E.dlim(p2['Dp'], nu, rhol, p2['rhos'])
+                    if p2['D50'] > max(dl2, 5e-5) * 1.0001:
+                        s2 = E.make_slurry(p2)
+                        inp2 = dict(inp, rhos=p2['rhos'], dlim=dl2, history=f"a slurry object with solids density {p['rhos']!r} and otherwise the same parameters was built and read first")
+                        bad, clause = check_gsd(s2.GSD, pts, dl2)
+                        if bad:
+                            ctx.violation('second Slurry object: ' + bad, inp2, key='gsd')
+                        check_lookup(ctx, s2, pts, dl2, inp2)
+                elif r_ < 0.5:
+                    # the same object reached along other routes: the two ratios given in two separate calls (as the viewer's D15 and D85 boxes do), the solids
+                    # density / pipe / fluid assigned (again) after the grading was given
+                    s3 = Slurry(Dp=p['Dp'], D50=p['D50'], fluid=p['fluid'], Cv=p['Cv'])
+                    route = ctx.rng.choice(['ratios one by one', 'rhos after the grading', 'same pipe and fluid assigned again'])
+                    if route == 'ratios one by one':
+                        s3.rhos = p['rhos']
+                        s3.generate_GSD(d15_ratio=p['r15'])
+                        s3.generate_GSD(d85_ratio=p['r85'])
+                    elif route == 'rhos after the grading':
+                        s3.generate_GSD(d15_ratio=p['r15'], d85_ratio=p['r85'])
+                        s3.rhos = p['rhos']
+                    else:
+                        s3.rhos = p['rhos']
+                        s3.generate_GSD(d15_ratio=p['r15'], d85_ratio=p['r85'])
+                        s3.get_dx(0.3)
+                        s3.Dp = p['Dp']
+                        s3.fluid = p['fluid']
+                    inp3 = dict(inp, history='slurry object built along another route: ' + route)
+                    bad, clause = check_gsd(s3.GSD, pts, dl)
+                    if bad:
+                        ctx.violation(f'Slurry ({route}): ' + bad, inp3, key='gsd')
+                    check_lookup(ctx, s3, pts, dl, inp3)
         except Exception as e:   # noqa
             ctx.violation(f'raised {type(e).__name__}: {e}', inp, key='raised')
     ctx.stats['distinct_nontrivial'] = len(classes)
